@@ -229,12 +229,10 @@ macro_rules! impl_dual_num {
                     .into_any());
                 }
                 if let Ok(mut r) = rhs.extract::<PyReadwriteArrayDyn<PyObject>>() {
-                    // check data type of first element
+                    // check data type of all elements (any number of dimensions, also empty arrays)
                     if r.as_array()
-                        .get(0)
-                        .unwrap()
-                        .bind(rhs.py())
-                        .is_instance_of::<Self>()
+                        .iter()
+                        .all(|ri| ri.bind(rhs.py()).is_instance_of::<Self>())
                     {
                         r.as_array_mut().map_inplace(|ri| {
                             *ri = Py::new(rhs.py(), Self(self.0.clone() + ri.extract::<Self>(rhs.py()).unwrap().0)).unwrap().into_any()
@@ -275,12 +273,10 @@ macro_rules! impl_dual_num {
                     .into_any());
                 }
                 if let Ok(mut r) = rhs.extract::<PyReadwriteArrayDyn<PyObject>>() {
-                    // check data type of first element
+                    // check data type of all elements (any number of dimensions, also empty arrays)
                     if r.as_array()
-                        .get(0)
-                        .unwrap()
-                        .bind(rhs.py())
-                        .is_instance_of::<Self>()
+                        .iter()
+                        .all(|ri| ri.bind(rhs.py()).is_instance_of::<Self>())
                     {
                         r.as_array_mut().map_inplace(|ri| {
                             *ri = Py::new(rhs.py(), Self(self.0.clone() - ri.extract::<Self>(rhs.py()).unwrap().0)).unwrap().into_any()
@@ -321,12 +317,10 @@ macro_rules! impl_dual_num {
                     .into_any());
                 }
                 if let Ok(mut r) = rhs.extract::<PyReadwriteArrayDyn<PyObject>>() {
-                    // check data type of first element
+                    // check data type of all elements (any number of dimensions, also empty arrays)
                     if r.as_array()
-                        .get(0)
-                        .unwrap()
-                        .bind(rhs.py())
-                        .is_instance_of::<Self>()
+                        .iter()
+                        .all(|ri| ri.bind(rhs.py()).is_instance_of::<Self>())
                     {
                         r.as_array_mut().map_inplace(|ri| {
                             *ri = Py::new(rhs.py(), Self(self.0.clone() * ri.extract::<Self>(rhs.py()).unwrap().0)).unwrap().into_any()
@@ -367,12 +361,10 @@ macro_rules! impl_dual_num {
                     .into_any());
                 }
                 if let Ok(mut r) = rhs.extract::<PyReadwriteArrayDyn<PyObject>>() {
-                    // check data type of first element
+                    // check data type of all elements (any number of dimensions, also empty arrays)
                     if r.as_array()
-                        .get(0)
-                        .unwrap()
-                        .bind(rhs.py())
-                        .is_instance_of::<Self>()
+                        .iter()
+                        .all(|ri| ri.bind(rhs.py()).is_instance_of::<Self>())
                     {
                         r.as_array_mut().map_inplace(|ri| {
                             *ri = Py::new(rhs.py(), Self(self.0.clone() / ri.extract::<Self>(rhs.py()).unwrap().0)).unwrap().into_any()
